@@ -68,6 +68,18 @@ def uint32Field (x : Int) : PyM Int := if x < 0 ∨ x ≥ 2 ^ 32 then .error .Va
 /-- `buf[i]` on a `bytes` / `bytearray`: an int in `range(256)` -/
 def byteAt (buf : Bytes) (i : Int) : PyM Int := (pyIndex buf i).map (fun x => (x.toNat : Int))
 
+/-- `bytearray(n)`: `n` zero bytes; a negative count raises ValueError. -/
+def bytearrayZeros (n : Int) : PyM Bytes := if n < 0 then .error .ValueError else .ok (List.replicate n.toNat 0)
+
+/-- `buf[i] = v` on a `bytearray`: IndexError outside the buffer (negative indices wrap once), ValueError unless
+    `v` is in `range(256)`. -/
+def setByte (buf : Bytes) (i : Int) (v : Int) : PyM Bytes :=
+  let n : Int := buf.length
+  let j := if i < 0 then i + n else i
+  if j < 0 ∨ j ≥ n then .error .IndexError
+  else if v < 0 ∨ v > 255 then .error .ValueError
+  else .ok (buf.set j.toNat (UInt8.ofNat v.toNat))
+
 /-- `chr(n)`; lone surrogates are not representable as a Lean `Char`. -/
 def chr (n : Int) : PyM Text :=
   if n < 0 ∨ n ≥ 0x110000 then .error .ValueError
